@@ -489,6 +489,27 @@ func c16(c *Ctx) {
 	})
 
 	c.Rule("C16.R4", "HTTP collectors: every received result and the cancellation error are appended to the slice given to the callback; one result expected per batch", 9, func(r *Rule) {
+		// the errors handed to the callback are the ones collected: a deferred *call* of the callback evaluates its
+		// argument when the defer statement runs, i.e. before anything was collected (a deferred function literal
+		// that calls it is fine)
+		for _, fn := range impls {
+			for _, g := range WithAnon(fn) {
+				eachInstr(g, func(in ssa.Instruction) {
+					d, ok := in.(*ssa.Defer)
+					if !ok || d.Call.IsInvoke() || staticCallee(d) != nil {
+						return
+					}
+					if _, isSig := d.Call.Value.Type().Underlying().(*types.Signature); !isSig || !typeIs(d.Call.Value.Type(), "", "SendCallback") {
+						return
+					}
+					for _, a := range d.Call.Args {
+						if _, isC := a.(*ssa.Const); !isC {
+							r.Fail(FuncName(fn)+":deferred-callback-argument", d.Pos(), "defer cb("+pathOf(a)+"): the error list is evaluated when the defer statement runs; errors appended afterwards never reach the flusher")
+						}
+					}
+				})
+			}
+		}
 		for _, fn := range impls {
 			// collector closure: a go closure that calls the callback and contains a select receiving errors
 			for _, g := range WithAnon(fn)[1:] {
